@@ -271,11 +271,11 @@ class BoundedDict(DictMixin):
         return data
 
     def __delitem__(self, key):
-        if self._delete_cb is not None:
-            self._delete_cb(key)
         del self._data[key]
         self._size -= 1
         del self._counter[key]
+        if self._delete_cb is not None:
+            self._delete_cb(key)
 
     def __del__(self):
         """Ensure the callback is called when last reference is lost"""
